@@ -7,13 +7,13 @@ SPEC = {
     'coq_targets': ['theories/Properties/C10_msgpack.vo', 'theories/Wire/MsgpackProofs.vo', 'theories/Wire/MsgpackRT.vo', 'theories/Wire/MsgpackCorr.vo'],
     'closure_dirs': ['theories/Wire/Msgpack.v', 'theories/Wire/MsgpackProofs.v', 'theories/Wire/MsgpackRT.v', 'theories/Wire/MsgpackCorr.v',
                      'theories/Wire/Item.v', 'theories/Base/Outcome.v', 'theories/C10/MsgpackSpec.v',
-                     'theories/C10/MsgpackProofs.v', 'theories/C10/LeafTie.v', 'theories/C10/LeafTieMsgpack.v', 'theories/Base/Word.v', 'theories/Gen/Consts.v', 'theories/Gen/Leaf2.v'],
+                     'theories/C10/MsgpackProofs.v', 'theories/C10/MsgpackSpecProofs.v', 'theories/Wire/MsgpackVU.v', 'theories/Wire/MsgpackVUProofs.v', 'theories/C10/CborSpec.v', 'theories/C10/LeafTie.v', 'theories/C10/LeafTieMsgpack.v', 'theories/Base/Word.v', 'theories/Gen/Consts.v', 'theories/Gen/Leaf2.v'],
     'harness': 'wiremsgpack',
     'args': {
-        'quick': ['-enc', 900, '-ref', 900, '-mut', 800, '-rand', 500, '-deep', 2000000],
-        'thorough': ['-enc', 20000, '-ref', 20000, '-mut', 20000, '-rand', 15000, '-deep', 3000000],
+        'quick': ['-enc', 900, '-ref', 900, '-mut', 800, '-rand', 500, '-vu', 400, '-deep', 2000000],
+        'thorough': ['-enc', 20000, '-ref', 20000, '-mut', 20000, '-rand', 15000, '-vu', 8000, '-deep', 3000000],
     },
-    'search_args': ['-enc', 6000, '-ref', 6000, '-mut', 5000, '-rand', 4000, '-deep', 0],
+    'search_args': ['-enc', 6000, '-ref', 6000, '-mut', 5000, '-rand', 4000, '-vu', 3000, '-deep', 0],
     'assumptions': [
         'model of msgpackEncDriver / DecodeNaked+kInterfaceNaked / nextValueBytes is hand written (Wire/Msgpack.v); tied by running it (vm_compute) on the inputs the real Encoder/Decoder ran on: bytes, decoded tree, error class and NumBytesRead must agree',
         '64-bit platform: int(uint32) is never negative (so a msgpack length can never equal containerLenNil); input is a Go slice (len < 2^63)',
